@@ -31,7 +31,9 @@ Record gx := mkGx {
   x_hold : option (bool * nat);    (* stalled writer: (true, call i) / (false, context j) *)
   x_calls : nat;                   (* Close() calls made *)
   x_wait : nat;                    (* Close() calls queued on the session lock *)
-  x_ret : nat                      (* Close() calls returned *)
+  x_ret : nat;                     (* Close() calls returned *)
+  x_qrun : list nat;               (* outgoing calls whose remote handler is parked *)
+  x_qpre : list nat                (* outgoing calls whose remote handler was let go before the request went out *)
 }.
 
 Record g8 := mkG8 {
@@ -64,8 +66,9 @@ Definition gate_write (g : g8) (who : bool * nat) (step : option g8) : option g8
       match step with
       | None => None
       | Some g' =>
-          if x_arm (g_x g) then
-            Some (set_x g (mkGx false (Some who) (x_calls (g_x g)) (x_wait (g_x g)) (x_ret (g_x g))))
+          (* a write on a dead connection fails before it can stall *)
+          if x_arm (g_x g) && (match wr_of (g_s g) with WOk => true | _ => false end) then
+            Some (set_x g (mkGx false (Some who) (x_calls (g_x g)) (x_wait (g_x g)) (x_ret (g_x g)) (x_qrun (g_x g)) (x_qpre (g_x g))))
           else Some g'
       end
   end.
@@ -75,7 +78,22 @@ Definition caller_free (g : g8) (i : nat) : option g8 :=
   match nth_error (calls s) i with
   | Some c =>
       let st := option_map (set_s g) (caller_step s i false (wr_of s)) in
-      match c_a c with A2w => gate_write g (true, i) st | _ => st end
+      match c_a c with
+      | A2w =>
+          (* a request that went out starts the remote handler, which parks *)
+          let x := g_x g in
+          let st' := match wr_of s with
+                     | WOk =>
+                         if existsb (Nat.eqb i) (x_qpre x) then
+                           (* its handler was let go already: the reply comes at once *)
+                           option_map (fun g' => mkG8 (g_s g') (g_q g' ++ [FrReply i FOk]) (g_got g') (g_relrun g') (g_relpre g')
+                                                      (g_ins g') (g_nin g') (g_closing g') (g_x g')) st
+                         else
+                           option_map (fun g' => set_x g' (mkGx (x_arm x) (x_hold x) (x_calls x) (x_wait x) (x_ret x) (x_qrun x ++ [i]) (x_qpre x))) st
+                     | _ => st end in
+          gate_write g (true, i) st'
+      | _ => st
+      end
   | None => None
   end.
 
@@ -112,14 +130,14 @@ Definition closer_move (g : g8) : option g8 :=
   match fst_opt (closer_step s) with
   | Some s' =>
       let x' := match cl s' with
-                | CIdle => mkGx (x_arm x) (x_hold x) (x_calls x) (x_wait x) (S (x_ret x))
+                | CIdle => mkGx (x_arm x) (x_hold x) (x_calls x) (x_wait x) (S (x_ret x)) (x_qrun x) (x_qpre x)
                 | _ => x end in
       Some (set_x (set_s g s') x')
   | None =>
       match cl s, x_wait x with
       | CIdle, S w =>
           match close_call s with
-          | Some s' => Some (set_x (set_s g s') (mkGx (x_arm x) (x_hold x) (x_calls x) w (x_ret x)))
+          | Some s' => Some (set_x (set_s g s') (mkGx (x_arm x) (x_hold x) (x_calls x) w (x_ret x) (x_qrun x) (x_qpre x)))
           | None => None
           end
       | _, _ => None
@@ -196,8 +214,8 @@ Definition do_ev (g : g8) (ev : val) : option g8 :=
         let x := g_x g in
         match close_call s with
         | Some s' => Some (mkG8 s' (g_q g) (g_got g) (g_relrun g) (g_relpre g) (g_ins g) (g_nin g) true
-                              (mkGx (x_arm x) (x_hold x) (S (x_calls x)) (x_wait x) (x_ret x)))
-        | None => Some (set_x g (mkGx (x_arm x) (x_hold x) (S (x_calls x)) (S (x_wait x)) (x_ret x)))
+                              (mkGx (x_arm x) (x_hold x) (S (x_calls x)) (x_wait x) (x_ret x) (x_qrun x) (x_qpre x)))
+        | None => Some (set_x g (mkGx (x_arm x) (x_hold x) (S (x_calls x)) (S (x_wait x)) (x_ret x) (x_qrun x) (x_qpre x)))
         end
       else if bytes_eqb k (str "pclose") then
         (* peer.Close ranges over the index: the session is there iff it is still ok *)
@@ -206,21 +224,24 @@ Definition do_ev (g : g8) (ev : val) : option g8 :=
         | Ok =>
             match close_call s with
             | Some s' => Some (mkG8 s' (g_q g) (g_got g) (g_relrun g) (g_relpre g) (g_ins g) (g_nin g) true
-                                  (mkGx (x_arm x) (x_hold x) (S (x_calls x)) (x_wait x) (x_ret x)))
-            | None => Some (set_x g (mkGx (x_arm x) (x_hold x) (S (x_calls x)) (S (x_wait x)) (x_ret x)))
+                                  (mkGx (x_arm x) (x_hold x) (S (x_calls x)) (x_wait x) (x_ret x) (x_qrun x) (x_qpre x)))
+            | None => Some (set_x g (mkGx (x_arm x) (x_hold x) (S (x_calls x)) (S (x_wait x)) (x_ret x) (x_qrun x) (x_qpre x)))
             end
-        | _ => Some (set_x g (mkGx (x_arm x) (x_hold x) (S (x_calls x)) (x_wait x) (S (x_ret x))))
+        | _ => Some (set_x g (mkGx (x_arm x) (x_hold x) (S (x_calls x)) (x_wait x) (S (x_ret x)) (x_qrun x) (x_qpre x)))
         end
       else if bytes_eqb k (str "push") then Some (set_s g (push_call s))
-      else if bytes_eqb k (str "lost") then Some (set_s g (set_conn s false))
+      else if bytes_eqb k (str "lost") then
+        (* closing the scripted connection lets a stalled Write continue (and fail) *)
+        let x := g_x g in
+        Some (set_x (set_s g (set_conn s false)) (mkGx (x_arm x) None (x_calls x) (x_wait x) (x_ret x) (x_qrun x) (x_qpre x)))
       else if bytes_eqb k (str "stallw") then
         let x := g_x g in
         match x_hold x with
         | Some _ => Some g
-        | None => Some (set_x g (mkGx true None (x_calls x) (x_wait x) (x_ret x)))
+        | None => Some (set_x g (mkGx true None (x_calls x) (x_wait x) (x_ret x) (x_qrun x) (x_qpre x)))
         end
       else if bytes_eqb k (str "relw") then
-        let x := g_x g in Some (set_x g (mkGx false None (x_calls x) (x_wait x) (x_ret x)))
+        let x := g_x g in Some (set_x g (mkGx false None (x_calls x) (x_wait x) (x_ret x) (x_qrun x) (x_qpre x)))
       else if bytes_eqb k (str "relrun") then
         Some (mkG8 s (g_q g) (g_got g) (oldest_at (hctxs s) K1 0) (g_relpre g) (g_ins g) (g_nin g) (g_closing g) (g_x g))
       else if bytes_eqb k (str "relpre") then
@@ -232,12 +253,20 @@ Definition do_ev (g : g8) (ev : val) : option g8 :=
       else None
   | VL [VS k; VN i] =>
       if bytes_eqb k (str "qrep") then
+        let x0 := g_x g in
+        let g := set_x g (mkGx (x_arm x0) (x_hold x0) (x_calls x0) (x_wait x0) (x_ret x0)
+                               (filter (fun k' => negb (Nat.eqb k' (N.to_nat i))) (x_qrun x0)) (x_qpre x0)) in
         let s := g_s g in
         match nth_error (calls s) (N.to_nat i) with
         | Some c =>
             (* the remote handler ran only if the request reached it *)
             if c_wrote c && (c_dones c =? 0) && reader_alive s && sock s && conn s
             then Some (mkG8 s (g_q g ++ [FrReply (N.to_nat i) FOk]) (g_got g) (g_relrun g) (g_relpre g) (g_ins g) (g_nin g) (g_closing g) (g_x g))
+            else if negb (c_wrote c) && (c_dones c =? 0) then
+              (* the request has not gone out yet (its write is queued or stalled): the
+                 handler will not park when it arrives *)
+              let x := g_x g in
+              Some (set_x g (mkGx (x_arm x) (x_hold x) (x_calls x) (x_wait x) (x_ret x) (x_qrun x) (x_qpre x ++ [N.to_nat i])))
             else Some g
         | None => None
         end
@@ -269,18 +298,19 @@ Fixpoint nth_call_ctx (hs : list hctx) (i : nat) : option hctx :=
               end
   end.
 
-(* what the remote caller sees for its call: the reply if it was written, a connection
-   error once this side's socket is closed, nothing yet otherwise *)
-Definition in_class (s : sess) (r : inrec) : val :=
+(* what the remote caller sees for its call: the reply if it was written; a connection error
+   once the connection is gone AND the remote session's own disconnect path is past its wait
+   for the remote handlers (those parked for our outgoing calls); nothing yet otherwise *)
+Definition in_class (s : sess) (qidle : bool) (r : inrec) : val :=
   match r with
   | InLost => vsym "connclosed"
   | InQueued i =>
       match nth_call_ctx (hctxs s) i with
       | Some h => match k_res h with
                   | WrWritten => vsym "ok"
-                  | _ => if negb (sock s) || negb (conn s) then vsym "connclosed" else vsym "pending"
+                  | _ => if (negb (sock s) || negb (conn s)) && qidle then vsym "connclosed" else vsym "pending"
                   end
-      | None => if negb (sock s) || negb (conn s) then vsym "connclosed" else vsym "pending"
+      | None => if (negb (sock s) || negb (conn s)) && qidle then vsym "connclosed" else vsym "pending"
       end
   end.
 
@@ -299,7 +329,7 @@ Definition obs (g : g8) : val :=
   VL [ VL [VN (N.of_nat (x_calls (g_x g))); VN (N.of_nat (x_ret (g_x g)))];
        status_sym (st s);
        VN (N.of_nat (starts s));
-       VL (map (in_class s) (g_ins g));
+       VL (map (in_class s (match x_qrun (g_x g) with [] => true | _ => false end)) (g_ins g));
        VL (map (fun c => if c_dones c =? 0 then vsym "pending" else class_of (c_stat c)) (calls s));
        VL (map push_class (filter (fun h => match k_kind h with KPushOut => true | _ => false end) (hctxs s))) ].
 
@@ -322,7 +352,7 @@ Definition live0 : sess := mkSess Ok true true 0 0 0 0 [] [] R2 CIdle 0%N true 0
 
 Definition run (inp : val) : option val :=
   match inp with
-  | VL evs => option_map VL (run_evs 3000 (mkG8 live0 [] false None None [] 0 false (mkGx false None 0 0 0)) evs)
+  | VL evs => option_map VL (run_evs 3000 (mkG8 live0 [] false None None [] 0 false (mkGx false None 0 0 0 [] [])) evs)
   | _ => None
   end.
 
